@@ -110,9 +110,28 @@ func vSymbolicTypeName(zero any, n int) {
 // of the counterexample path by construction.
 func vAssume(c bool) {}
 
-func vRank(s string) int { return 0 }
+func vRank(s string) int {
+	r := len(s) * 1000
+	for i := 0; i < len(s); i++ {
+		r += int(s[i])
+	}
+	return r
+}
+
+var vrtTraceOn = os.Getenv("GOSX_TRACE") != ""
+
+func vrtTrace(s string) {
+	if vrtTraceOn {
+		fmt.Println("VERIF-TRACE " + s)
+	}
+}
 
 func vAssert(c bool, label string) {
+	if c {
+		vrtTrace("A:" + label + ":ok")
+	} else {
+		vrtTrace("A:" + label + ":FAIL")
+	}
 	if !c {
 		vrtFailed.Store(true)
 		fmt.Printf("VERIF-ASSERT-FAILED label=%s\n", label)
@@ -120,9 +139,40 @@ func vAssert(c bool, label string) {
 	}
 }
 
-func vAssertK(c bool, label, knownID string, region bool) { vAssert(c, label) }
+func vAssertK(c bool, label, knownID string, region bool) {
+	if vrtTraceOn && !c && region {
+		// conformance runs: a recorded known finding does not end the run
+		vrtTrace("A:" + label + ":FAIL")
+		return
+	}
+	vAssert(c, label)
+}
 func vCover(label string)                                   {}
-func vObserve(tag string, vals ...any)                      { fmt.Println(append([]any{"VERIF-OBS", tag}, vals...)...) }
+func vObserve(tag string, vals ...any) {
+	if !vrtTraceOn {
+		return
+	}
+	s := "O:" + tag
+	for _, v := range vals {
+		switch x := v.(type) {
+		case int, int64, int32, uint, uint64, uint32, uint8, bool:
+			s += fmt.Sprint(" ", x)
+		case string:
+			s += " " + x
+		default:
+			rv := reflect.ValueOf(v)
+			switch rv.Kind() {
+			case reflect.String:
+				s += " " + rv.String()
+			case reflect.Int, reflect.Int64, reflect.Int32:
+				s += fmt.Sprint(" ", rv.Int())
+			default:
+				s += " ?"
+			}
+		}
+	}
+	vrtTrace(s)
+}
 func vYield() {
 	if vs.on {
 		vsBefore()
@@ -226,7 +276,10 @@ func vsInit(schedJSON string) {
 	vs.points = map[int]int{}
 	vs.ids = map[int64]int{}
 	vs.nextID = 1
-	if schedJSON == "" || schedJSON == "null" {
+	if schedJSON == "" || schedJSON == "null" || os.Getenv("GOSX_REPLAY_MODE") == "free" {
+		// "free": run the counterexample's inputs without the recorded schedule
+		// (used under -race: the token hand-offs of a scheduled replay are
+		// themselves happens-before edges and would hide a real data race)
 		return
 	}
 	json.Unmarshal([]byte(schedJSON), &vs.log)
